@@ -46,37 +46,14 @@ struct Snap {
    }
 };
 
-// renames server-chosen index-child names "I<k>" to "I<rank among such siblings>" (the counter behind them survives node recycling, so the
-// numbers themselves are not predictable; the documentation only says the names are "chosen algorithmically by the server")
+// Server-chosen index-child names "I<k>" come from a per-DataNode counter that DataNode::Init()/Reset() do not reset, and DataNodes are pooled:
+// the names a fresh node hands out would depend on what the recycled object did in an earlier life.  The harness therefore keeps a reference to
+// every node it has ever seen (g_keep), so no node object is recycled and the counters start at 0 as the specification assumes.
+static std::vector<DataNodeRef> & g_keep = *(new std::vector<DataNodeRef>); static std::set<const DataNode *> & g_kept = *(new std::set<const DataNode *>);   // never destroyed (the node pool dies first at exit)
+static void KeepAll(DataNode & n) {for (DataNodeRefIterator it = n.GetChildIterator(); it.HasData(); it++) {if (g_kept.insert(it.GetValue()()).second) g_keep.push_back(it.GetValue()); KeepAll(*it.GetValue()());}}
 struct Ranker {
-   std::map<std::string, std::map<std::string, std::string> > byParent;   // ORIGINAL parent path -> original name -> new name
-   void Build(const std::map<std::string, uint32> & tree)
-   {
-      std::map<std::string, std::vector<unsigned long> > kids;
-      for (std::map<std::string, uint32>::const_iterator i = tree.begin(); i != tree.end(); ++i) {std::vector<std::string> v = SplitPath(i->first); if ((v.size() >= 1)&&(IsIName(v.back()))) kids[JoinPath(v, v.size()-1)].push_back(strtoul(v.back().c_str()+1, NULL, 10));}
-      for (std::map<std::string, std::vector<unsigned long> >::iterator i = kids.begin(); i != kids.end(); ++i) {std::sort(i->second.begin(), i->second.end()); for (size_t r=0; r<i->second.size(); r++) {char a[32], b[32]; snprintf(a, sizeof(a), "I%lu", i->second[r]); snprintf(b, sizeof(b), "I%zu", r); byParent[i->first][a] = b;}}
-   }
-   std::string Name(const std::string & origParent, const std::string & nm) const
-   {
-      std::map<std::string, std::map<std::string, std::string> >::const_iterator i = byParent.find(origParent); if (i == byParent.end()) return nm;
-      std::map<std::string, std::string>::const_iterator j = i->second.find(nm); return (j == i->second.end()) ? nm : j->second;
-   }
-   std::string Path(const std::string & p) const
-   {
-      std::vector<std::string> v = SplitPath(p), o; for (size_t i=0; i<v.size(); i++) o.push_back(Name(JoinPath(v, i), v[i])); return JoinPath(o);
-   }
-   Snap Apply(const Snap & s) const
-   {
-      Snap r = s; r.tree.clear(); r.idx.clear(); r.marks.clear(); r.mirror.clear();
-      for (std::map<std::string, uint32>::const_iterator i = s.tree.begin(); i != s.tree.end(); ++i) r.tree[Path(i->first)] = i->second;
-      for (std::map<std::string, std::string>::const_iterator i = s.idx.begin(); i != s.idx.end(); ++i) {
-         std::string out, cur; const std::string & l = i->second;
-         for (size_t k=0; k<=l.size(); k++) {if ((k == l.size())||(l[k] == ',')) {if (!out.empty()) out += ','; out += Name(i->first, cur); cur.clear();} else cur += l[k];}
-         r.idx[Path(i->first)] = l.empty() ? l : out; }
-      for (std::map<std::string, std::map<std::string, uint32> >::const_iterator i = s.marks.begin(); i != s.marks.end(); ++i) r.marks[Path(i->first)] = i->second;
-      for (std::map<std::string, std::map<std::string, uint32> >::const_iterator i = s.mirror.begin(); i != s.mirror.end(); ++i) for (std::map<std::string, uint32>::const_iterator j = i->second.begin(); j != i->second.end(); ++j) r.mirror[i->first][Path(j->first)] = j->second;
-      return r;
-   }
+   void Build(const std::map<std::string, uint32> &) {}
+   const Snap & Apply(const Snap & s) const {return s;}
 };
 
 struct IsoWorld {
@@ -123,7 +100,7 @@ struct IsoWorld {
    Snap Observe()
    {
       Snap sn; Client * any = NULL; for (size_t i=0; i<w.cs.size(); i++) if (w.Attached(w.cs[i])) {any = w.cs[i]; break;}
-      if (any) Walk(any->sess->Root(), sn);
+      if (any) {KeepAll(any->sess->Root()); Walk(any->sess->Root(), sn);}
       for (int i=0; i<3; i++) { Client * c = s[i];
          if (!w.Attached(c)) continue;
          sn.conn.insert(c->name);
@@ -210,18 +187,8 @@ struct IsoWorld {
       (void) forSubtreeOf;
       std::vector<std::string> v; for (size_t i=0; i<c["p"].size(); i++) v.push_back(RealClause(c["p"][i].str()));
       const bool abs = c["abs"].truthy();
-      // server-chosen "I<k>" names of the sender's OWN subtree: the model's name is the rank
-      if (!abs) { DataNode * n = actor->sess->SessNode();
-         for (size_t i=0; (n)&&(i<v.size()); i++) { if (IsIName(v[i])) v[i] = RealIName(n, v[i]); DataNodeRef ch; if (n->GetChild(v[i].c_str(), ch).IsError()) break; n = ch(); } }
       std::string s; for (size_t i=0; i<v.size(); i++) {if (i) s += '/'; s += v[i];}
       return abs ? ("/"+s) : s;
-   }
-   static std::string RealIName(DataNode * parent, const std::string & modelName)
-   {
-      std::vector<unsigned long> ks; for (DataNodeRefIterator it = parent->GetChildIterator(); it.HasData(); it++) {const std::string nm = it.GetValue()()->GetNodeName()(); if (IsIName(nm)) ks.push_back(strtoul(nm.c_str()+1, NULL, 10));}
-      std::sort(ks.begin(), ks.end()); const unsigned long r = strtoul(modelName.c_str()+1, NULL, 10);
-      if (r < ks.size()) {char b[32]; snprintf(b, sizeof(b), "I%lu", ks[r]); return b;}
-      return modelName;
    }
    MessageRef Build(const J & c, Client * actor)
    {
@@ -246,13 +213,7 @@ struct IsoWorld {
       if (op == "BATCH") {MessageRef m = Msg(PR_COMMAND_BATCH); for (size_t i=0; i<c["sub"].size(); i++) (void) m()->AddMessage(PR_NAME_KEYS, Build(c["sub"][i], actor)); return m;}
       fprintf(stderr, "unknown model command %s\n", op.c_str()); exit(11);
    }
-   std::string BeforeName(const J & c, Client * actor, bool ofParent) const
-   {
-      const std::string x = c["x"].str(); if ((!IsIName(x))||(c["abs"].truthy())) return x;
-      DataNode * n = actor->sess->SessNode(); const size_t upto = c["p"].size() - (ofParent ? 1 : 0);
-      for (size_t i=0; (n)&&(i<upto); i++) {std::string cl = RealClause(c["p"][i].str()); if (IsIName(cl)) cl = RealIName(n, cl); DataNodeRef ch; if (n->GetChild(cl.c_str(), ch).IsError()) return x; n = ch();}
-      return n ? RealIName(n, x) : x;
-   }
+   std::string BeforeName(const J & c, Client *, bool) const {return c["x"].str();}
    static bool HasPrivileged(const J & c) {const std::string op = c["op"].str(); if ((op == "KICK")||(op == "ADDBANS")||(op == "REMOVEBANS")||(op == "ADDREQUIRES")||(op == "REMOVEREQUIRES")) return true; for (size_t i=0; i<c["sub"].size(); i++) if (HasPrivileged(c["sub"][i])) return true; return false;}
    static int CountOp(const J & c, const char * op) {int k = (c["op"].str() == op) ? 1 : 0; for (size_t i=0; i<c["sub"].size(); i++) k += CountOp(c["sub"][i], op); return k;}
    static bool HasOp(const J & c, const char * op) {return CountOp(c, op) > 0;}
@@ -299,7 +260,8 @@ struct IsoWorld {
             if ((!isDepart)&&(!actor.empty())) { const std::string & l = *i; size_t sp = l.find(' '); const std::string sect = l.substr(0, sp), rest = l.substr(sp+1);
                if ((sect == "tree")||(sect == "idx")) own = (rest.compare(0, aroot.size()+1, aroot+"/") == 0)||(rest.compare(0, aroot.size()+1, aroot+" ") == 0);
                else if (sect == "marks") {const size_t s2 = rest.find(' '); const std::string path = rest.substr(0, s2); const std::string who = rest.substr(s2+1, rest.find(' ', s2+1)-s2-1); own = (who == actor)||(path.compare(0, aroot.size()+1, aroot+"/") == 0)||(path == aroot);}
-               else if ((sect == "param")||(sect == "sub")||(sect == "mirror")) own = (rest.compare(0, actor.size()+1, actor+" ") == 0);
+               else if ((sect == "param")||(sect == "sub")) own = (rest.compare(0, actor.size()+1, actor+" ") == 0);
+               else if (sect == "mirror") {const size_t s2 = rest.find(' '); const std::string path = rest.substr(s2+1); own = (rest.compare(0, actor.size()+1, actor+" ") == 0)||(path.compare(0, aroot.size()+1, aroot+"/") == 0)||(path.compare(0, aroot.size()+1, aroot+" ") == 0);}   // what the others see of the sender's own nodes follows the sender's subtree (MirrorExact is checked separately)
                else if (sect == "conn") own = (rest == actor); }
             const std::string msg = std::string(when) + (pass ? ": expected by the specification but not observed: [" : ": observed but not expected by the specification: [") + *i + "]";
             if (own) D(msg); else V(msg); } }
@@ -531,7 +493,7 @@ static int IsoRandom(int argc, char ** argv)
             st.set("a", J::Str("Cmd")).set("who", J::Str(actor->name)).set("ci", J::Int((int64_t) ci+1)).set("cmd", menu[ci]); hist.push(st); SetCur(mj::ToString(hist).substr(0, 6000));
             nxt = FullView(); DoCommandStep(iw, st, cur, nxt, when); cur = nxt; }
          if (logIt) { // the observed state, flat, in the specification's vocabulary
-            Ranker rk; rk.Build(cur.sn.tree); const Snap sn = rk.Apply(cur.sn);
+            const Snap & sn = cur.sn;
             J o = J::Obj(); o.set("a", st["a"]).set("who", st["who"]); if (st.has("ci")) {o.set("ci", st["ci"]); o.set("op", st["cmd"]["op"]);}
             J tree = J::Arr(); for (std::map<std::string, uint32>::const_iterator i = sn.tree.begin(); i != sn.tree.end(); ++i) {J e = J::Arr(); e.push(StrList(SplitPath(i->first))); e.push(J::Int(i->second)); tree.push(e);}
             J idx = J::Arr(); for (std::map<std::string, std::string>::const_iterator i = sn.idx.begin(); i != sn.idx.end(); ++i) { if (i->second.empty()) continue; J e = J::Arr(); e.push(StrList(SplitPath(i->first)));
@@ -552,4 +514,24 @@ static int IsoRandom(int argc, char ** argv)
    fclose(tf);
    J s = J::Obj(); s.set("summary", J::Bool(true)).set("histories", J::Int(g_cases)).set("clean", J::Int(g_isoFollowed)).set("violating_cases", J::Int(g_violCases)).set("steps", J::Int(g_isoSteps)).set("traces_written", J::Int(traces)).set("trace_lines", J::Int(lines)).set("wall_ms", J::Int((int64_t) ((Now()-t0)*1000)));
    RepJ(s); return 0;
+}
+
+// directed case of known finding F40: DataNode::Init()/Reset() do not reset _orderedCounter, and DataNodes are pooled, so the server-chosen
+// child names of a NEW node continue where a departed session's node of an earlier life stopped (no references are kept here)
+static int CtrLeakDirected(int argc, char ** argv)
+{
+   if (argc < 3) return 2; if (!OpenReport(argv[2])) return 3;
+   World w; Client * a = w.Add("s1", "hA"); Client * b = w.Add("s2", "hA"); w.Settle();
+   {MessageRef m = Msg(PR_COMMAND_SETDATA); for (int i=0; i<8; i++) {char nm[16]; snprintf(nm, sizeof(nm), "n%d", i); m()->AddMessage(nm, Msg(1));} w.Send(a, m); w.Settle();}
+   for (int k=0; k<3; k++) {MessageRef m = Msg(PR_COMMAND_INSERTORDEREDDATA); m()->AddString(PR_NAME_KEYS, "*"); m()->AddMessage("zz", Msg(2)); w.Send(a, m); w.Settle();}
+   w.Close(a); w.Settle();     // s1 departs: its 8 nodes (each has handed out I0, I1, I2) and their children go back to the pool
+   {MessageRef m = Msg(PR_COMMAND_SETDATA); for (int i=0; i<8; i++) {char nm[16]; snprintf(nm, sizeof(nm), "f%d", i); m()->AddMessage(nm, Msg(1));} w.Send(b, m); w.Settle();}
+   {MessageRef m = Msg(PR_COMMAND_INSERTORDEREDDATA); m()->AddString(PR_NAME_KEYS, "*"); m()->AddMessage("zz", Msg(2)); w.Send(b, m); w.Settle();}
+   std::string names; int notI0 = 0, kids = 0;
+   DataNode * sn = b->sess->SessNode();
+   if (sn) for (DataNodeRefIterator it = sn->GetChildIterator(); it.HasData(); it++) for (DataNodeRefIterator jt = it.GetValue()()->GetChildIterator(); jt.HasData(); jt++) {kids++; const std::string nm = jt.GetValue()()->GetNodeName()(); names += it.GetValue()()->GetNodeName()(); names += "/" + nm + " "; if (nm != "I0") notI0++;}
+   J row = J::Obj(); row.set("case", J::Str("ctrleak")).set("children", J::Int(kids)).set("not_I0", J::Int(notI0)).set("names", J::Str(names));
+   if (kids != 8) {J v = J::Arr(); v.push(J::Str("directed case F40: the ordered inserts did not create 8 children")); row.set("drift", v);}
+   else if (notI0) {J v = J::Arr(); char t[400]; snprintf(t, sizeof(t), "%d of 8 brand-new nodes of s2 named their FIRST server-chosen child other than I0 after s1 (whose nodes had handed out I0..I2) departed: %s", notI0, names.c_str()); v.push(J::Str(t)); row.set("known", v);}
+   RepJ(row); J s2 = J::Obj(); s2.set("summary", J::Bool(true)).set("cases", J::Int(1)); RepJ(s2); return 0;
 }
